@@ -45,7 +45,7 @@ def gen_ratios(rng, ctx, n):
 
 
 def gen_cases(rng, tier):
-    n_ctx = 30 if tier == "thorough" else 5
+    n_ctx = 30 if tier == "thorough" else 8
     per = 60 if tier == "thorough" else 22
     cases = []
     ctxs = [_qty.predefined_ctx()]
